@@ -60,11 +60,12 @@ EFFECT_CALLS = {'warn', 'info', 'debug', 'warning', 'error', 'getLogger',
 
 
 class Machine:
-    def __init__(self, env, stubs=None):
+    def __init__(self, env, stubs=None, resolver=None):
         self.env = env            # 'a', 'self.b.c' -> value
         self.stubs = stubs or {}
         self.effects = []
         self.steps = 0
+        self.resolver = resolver  # name -> value of a module global
 
     # ------------------------------------------------------------ values
     def key(self, e):
@@ -82,6 +83,11 @@ class Machine:
                 return self.env[e.id]
             if e.id in ('True', 'False', 'None'):
                 return {'True': True, 'False': False, 'None': None}[e.id]
+            if self.resolver is not None:
+                try:
+                    return self.resolver(e.id)
+                except KeyError:
+                    pass
             if e.id in self.SAFE and e.id not in self.stubs:
                 return self.SAFE[e.id]
             raise Unknown(f'name {e.id}')
@@ -96,6 +102,14 @@ class Machine:
             if isinstance(base, Sym) and base.attrs is not None and \
                     e.attr in base.attrs:
                 return base.attrs[e.attr]
+            if self.resolver is not None and hasattr(
+                    self.resolver, 'chain'):
+                ch = au.chain(e)
+                if ch:
+                    try:
+                        return self.resolver.chain(ch)
+                    except KeyError:
+                        pass
             raise Unknown(f'attribute {au.src(e)}')
         if isinstance(e, ast.Subscript):
             c = self.ev(e.value)
@@ -218,6 +232,8 @@ class Machine:
             return True
         if isinstance(e, ast.Call):
             return self.call(e)
+        if isinstance(e, ast.Lambda):
+            return ('lambda', e, dict(self.env), self.resolver)
         raise Unknown(type(e).__name__)
 
     def comprehension(self, e):
@@ -303,13 +319,38 @@ class Machine:
     }
 
     def apply_callable(self, f, args, kw=None):
-        if isinstance(f, tuple) and f and f[0] == 'closure':
-            fn = f[1]
-            env = dict(self.env)
-            params = [a.arg for a in fn.args.posonlyargs + fn.args.args]
+        if isinstance(f, tuple) and f and f[0] == 'lambda':
+            node, env, resolver = f[1], dict(f[2]), f[3]
+            a = node.args
+            params = [x.arg for x in a.posonlyargs + a.args]
+            if len(args) > len(params) or a.vararg or a.kwarg:
+                raise Unknown('lambda arguments')
+            for p, d in zip(params[len(params) - len(a.defaults):],
+                            a.defaults):
+                env[p] = Machine(dict(f[2]), self.stubs, resolver).ev(d)
             for p, v in zip(params, args):
                 env[p] = v
-            sub = Machine(env, self.stubs)
+            for k, v in (kw or {}).items():
+                env[k] = v
+            if any(p not in env for p in params):
+                raise Raised('TypeError')
+            sub = Machine(env, self.stubs, resolver)
+            sub.steps = self.steps
+            return sub.ev(node.body)
+        if isinstance(f, tuple) and f and f[0] == 'closure':
+            fn = f[1]
+            resolver = f[2] if len(f) > 2 else self.resolver
+            env = dict(self.env) if len(f) <= 2 else dict()
+            a = fn.args
+            params = [x.arg for x in a.posonlyargs + a.args]
+            for p, d in zip(params[len(params) - len(a.defaults):],
+                            a.defaults):
+                env[p] = Machine(dict(), self.stubs, resolver).ev(d)
+            for p, v in zip(params, args):
+                env[p] = v
+            for k, v in (kw or {}).items():
+                env[k] = v
+            sub = Machine(env, self.stubs, resolver)
             sub.steps = self.steps
             try:
                 sub.run(fn.body)
@@ -419,6 +460,15 @@ class Machine:
                     if e.func.attr in ('items', 'keys', 'values'):
                         return list(r)
                     return r
+        # a function held in a variable, a table entry, a module global
+        try:
+            fv = self.ev(e.func)
+        except Unknown:
+            fv = None
+        if isinstance(fv, tuple) and fv and fv[0] in ('closure', 'lambda'):
+            args = self.elements(e.args)
+            kw = {k.arg: self.ev(k.value) for k in e.keywords if k.arg}
+            return self.apply_callable(fv, args, kw)
         raise Unknown(f'call {n}')
 
     # -------------------------------------------------------- statements
@@ -650,9 +700,139 @@ def _as_load(t):
     raise Unknown('augmented assignment target')
 
 
-def run_function(fn, env, stubs=None):
+class ModuleEnv:
+    """Resolver of the globals of one module of the program: constants
+    and tables are evaluated from their top-level assignment (once),
+    functions become closures of the module, imported modules become
+    objects whose attributes resolve in that module."""
+
+    def __init__(self, program, modname, stubs=None, _cache=None,
+                 fallback=None):
+        self.program = program
+        self.modname = modname
+        self.fallback = fallback   # (module, name) -> value | KeyError
+        self.stubs = stubs or {}
+        self.cache = dict()
+        self.modules = _cache if _cache is not None else dict()
+        self.modules[modname] = self
+        self.busy = set()
+
+    def module(self, modname):
+        if modname not in self.modules:
+            if modname not in self.program.units:
+                return None
+            ModuleEnv(self.program, modname, self.stubs, self.modules,
+                      self.fallback)
+        return self.modules[modname]
+
+    def chain(self, ch):
+        """`pkg.mod.NAME` written out in full (after `import pkg.mod`)."""
+        for k in range(len(ch) - 1, 0, -1):
+            modname = '.'.join(ch[:k])
+            if modname in self.program.units:
+                # the module must be imported here under that name
+                unit = self.program.units.get(self.modname)
+                imported = any(
+                    isinstance(s, ast.Import) and any(
+                        a.name == modname and not a.asname
+                        for a in s.names)
+                    for s in unit.tree.body)
+                if not imported:
+                    raise KeyError('.'.join(ch))
+                v = self.module(modname)(ch[k])
+                for attr in ch[k + 1:]:
+                    if isinstance(v, Sym) and v.attrs is not None and \
+                            attr in v.attrs:
+                        v = v.attrs[attr]
+                    else:
+                        raise KeyError('.'.join(ch))
+                return v
+        raise KeyError('.'.join(ch))
+
+    def __call__(self, name):
+        if name in self.cache:
+            return self.cache[name]
+        if name in self.busy:
+            raise KeyError(name)
+        unit = self.program.units.get(self.modname)
+        if unit is None:
+            raise KeyError(name)
+        found = None
+        for s in unit.tree.body:
+            if isinstance(s, ast.Assign) and any(
+                    isinstance(t, ast.Name) and t.id == name
+                    for t in s.targets):
+                found = s
+            elif isinstance(s, ast.AnnAssign) and isinstance(
+                    s.target, ast.Name) and s.target.id == name and \
+                    s.value is not None:
+                found = s
+            elif isinstance(s, (ast.FunctionDef, ast.ClassDef)) and \
+                    s.name == name:
+                found = s
+            elif isinstance(s, (ast.Import, ast.ImportFrom)):
+                for a in s.names:
+                    if (a.asname or a.name.split('.')[0]) == name:
+                        found = (s, a)
+        if found is None:
+            raise KeyError(name)
+        self.busy.add(name)
+        try:
+            if isinstance(found, tuple):
+                s, a = found
+                if isinstance(s, ast.Import):
+                    target = a.name if a.asname else a.name.split('.')[0]
+                    sub = self.module(target)
+                else:
+                    base = s.module or ''
+                    sub = self.module(f'{base}.{a.name}' if base
+                                      else a.name)
+                    if sub is None and base:
+                        # from module import name
+                        owner = self.module(base)
+                        if owner is None:
+                            raise KeyError(name)
+                        v = owner(a.name)
+                        self.cache[name] = v
+                        return v
+                if sub is None:
+                    raise KeyError(name)
+                v = Sym(f'module {sub.modname}', _ModuleAttrs(sub))
+            elif isinstance(found, ast.FunctionDef):
+                v = ('closure', found, self)
+            elif isinstance(found, ast.ClassDef):
+                v = Sym(f'class {found.name}')
+            else:
+                try:
+                    v = Machine(dict(), self.stubs, self).ev(found.value)
+                except (Unknown, Raised):
+                    if self.fallback is None:
+                        raise KeyError(name)
+                    v = self.fallback(self.modname, name)
+            self.cache[name] = v
+            return v
+        finally:
+            self.busy.discard(name)
+
+
+class _ModuleAttrs:
+    def __init__(self, modenv):
+        self.modenv = modenv
+
+    def __contains__(self, name):
+        try:
+            self.modenv(name)
+            return True
+        except KeyError:
+            return False
+
+    def __getitem__(self, name):
+        return self.modenv(name)
+
+
+def run_function(fn, env, stubs=None, resolver=None):
     """-> ('return', value) | ('raise', name) | ('fall', None), machine"""
-    m = Machine(env, stubs)
+    m = Machine(env, stubs, resolver)
     try:
         m.run(fn.body if hasattr(fn, 'body') else fn)
     except Returned as r:
